@@ -266,6 +266,10 @@ func (w *worker[T, JobType]) WaitUntilFinished() {
 }
 
 func (w *worker[T, JobType]) Errs() <-chan error {
+	// Stop and Restart replace the channel under w.mx
+	w.mx.RLock()
+	defer w.mx.RUnlock()
+
 	return w.errorChan
 }
 
@@ -819,6 +823,10 @@ func (w *worker[T, JobType]) Resume() error {
 }
 
 func (w *worker[T, JobType]) Context() context.Context {
+	// Restart replaces the context under w.mx
+	w.mx.RLock()
+	defer w.mx.RUnlock()
+
 	return w.ctx
 }
 
